@@ -76,8 +76,13 @@ def impl_run(case):
     out = {}
     kw = dict(k=case["k"], overlap=case["overlap"], minlength=case["minlength"], maxlength=case["maxlength"])
     for eng, use_c in (("py", False), ("c", True)):
-        sa = SubsequenceAlignment(q, s, penalty=case["penalty"], use_c=use_c)
-        sa.align()
+        if (len(case["query"]) + len(case["series"])) % 2 == 0:
+            # the documented entry point: subsequence_alignment(query, series, penalty, use_c) = object + align()
+            from dtaidistance.subsequence.subsequencealignment import subsequence_alignment
+            sa = subsequence_alignment(q, s, penalty=case["penalty"], use_c=use_c)
+        else:
+            sa = SubsequenceAlignment(q, s, penalty=case["penalty"], use_c=use_c)
+            sa.align()
         mf = sa.matching_function()
         bm = sa.best_match()
         res = {"matching": np.array(mf), "best": {"idx": int(bm.idx), "value": float(bm.value),
